@@ -233,6 +233,7 @@ class Check:
         self.findings = [f for f in load_findings() if f.get("property") == pid]
         self.tlc_runs: list[dict] = []
         self.exhaustive = False
+        CURRENT.append(self)
 
     # ---- TLC ---------------------------------------------------------------------------------------------
     def tlc(self, module: str, cfg: str, *, label: str | None = None, expect_ok: bool = True, **kw) -> TLCResult:
@@ -389,16 +390,49 @@ class Check:
         return 1 if self.violations else 0
 
 
+def _raised_in_repo(tb) -> tuple[bool, list[str]]:
+    """Walks a traceback from the innermost frame outwards, skipping library frames: True when the first frame that
+    belongs to either the harness or the repository belongs to the repository (the real code raised by itself on an
+    input the harness built), False when it belongs to the harness (a machinery problem)."""
+    import traceback
+    repo = os.path.realpath(os.environ.get("VP_RUN_REPO", "/repo")) + os.sep
+    harness = os.path.realpath(str(VERIF / "harness")) + os.sep
+    frames = traceback.extract_tb(tb)
+    where = [f"{fr.filename}:{fr.lineno} {fr.name}" for fr in frames[-6:]]
+    for fr in reversed(frames):
+        fn_ = os.path.realpath(fr.filename)
+        if fn_.startswith(repo):
+            return True, where
+        if fn_.startswith(harness):
+            return False, where
+    return False, where
+
+
+CURRENT: list = []      # the Check object of this process (set by Check.__init__)
+
+
 def main_wrapper(fn, pid: str, tier: str):
-    """Run a driver; machinery failures give exit 2 and never a VIOLATION line."""
+    """Run a driver; machinery failures give exit 2 and never a VIOLATION line.  An exception (or sys.exit) raised by
+    the repository's own code on an input that the driver built - every driver catches the rejections its specification
+    expects, and on the unchanged tree none escapes - means that the implementation produced no result where every
+    property demands one: it is reported as a violation of clause `real_code_raised`, not as a machinery failure."""
     try:
         rc = fn(tier)
     except MachineryFailure as e:
         print(f"MACHINERY-FAILURE property={pid}: {e}", file=sys.stderr)
         sys.exit(2)
-    except Exception as e:  # pylint: disable=broad-except
+    except (Exception, SystemExit) as e:  # pylint: disable=broad-except
         import traceback
         traceback.print_exc()
+        in_repo, where = _raised_in_repo(e.__traceback__)
+        if in_repo:
+            chk = CURRENT[-1] if CURRENT else Check(pid, tier)
+            site = next((w for w in reversed(where) if "/pandora/" in w), where[-1] if where else "?")
+            chk.violation("real_code_raised", {"exception": type(e).__name__, "site": site.split(" ")[-1]},
+                          {"exception": f"{type(e).__name__}: {e}", "frames": where, "tier": tier, "seed": seed(),
+                           "reproduce": f"VERIF_SEED={seed()} bin/check {pid} {tier}"},
+                          f"the implementation raised {type(e).__name__} on an input the specification accepts ({site})")
+            sys.exit(chk.finish())
         print(f"MACHINERY-FAILURE property={pid}: {type(e).__name__}: {e}", file=sys.stderr)
         sys.exit(2)
     sys.exit(rc)
